@@ -61,6 +61,56 @@ def substitute(parts, opts, sigma):
     return parts, opts
 
 
+# element names that an HTML parser (not the grammar of the property) treats specially: raw-text and escapable-raw-text elements, elements
+# whose start tag changes the tokeniser state or the insertion mode, foreign content, elements with special leading-newline / implied
+# end-tag rules; in several letter cases.  A writer (or a collapser / stripper) that knows about any of them must still write
+# document text as escaped data and keep the output inside the property's grammar.
+SPECIAL_NAMES = ["script", "style", "textarea", "title", "xmp", "plaintext", "pre", "listing", "iframe", "noembed", "noframes", "noscript",
+                 "template", "svg", "math", "select", "option", "button", "head", "body", "html", "form", "object", "code", "kbd", "samp",
+                 "SCRIPT", "Style", "sCrIpT", "TEXTAREA", "Title", "PRE", "script", "style", "script", "style", "textarea", "title"]
+SPECIAL_ATTRS = [["type", "math/tex"], ["type", "text/plain"], ["type", "math/tex; mode=display"], ["type", "text/css"], ["lang", "x"], ["data-x", "<&\">"]]
+
+
+def special_lines(rng, pools):
+    """1-4 printed mappings whose HTML paths use SPECIAL_NAMES (alone, below or above ordinary elements, with alternatives, fresh or not,
+    with attributes), for matchers that describe many elements of the generated documents (bare `p` / `r` / `b` ..., the styles of the pool)"""
+    import cases as CS
+    import gen_stylemap as GS
+    for _ in range(20):
+        lines = []
+        for _k in range(rng.choice([1, 1, 2, 3, 4])):
+            m = GS.gen_matcher(rng, pools, 0.0, 0)
+            if m["k"] in ("break", "comment_reference") or rng.random() < 0.4:
+                m = {"k": rng.choice(["paragraph", "paragraph", "run"]), "sid": None, "sname": None, "num": None}
+            path = GS.gen_path(rng, 0.5, True, False, maxlen=3, hid=0) or [GS.gen_element(rng, 0.5, True, 0)]
+            touched = False
+            for e in path:
+                if rng.random() < 0.6 or (e is path[-1] and not touched):
+                    touched = True
+                    e["names"] = [rng.choice(SPECIAL_NAMES)] + e["names"][1:]
+                    if rng.random() < 0.3:
+                        e["names"].insert(rng.randint(0, len(e["names"])), rng.choice(SPECIAL_NAMES))
+                    if rng.random() < 0.3 and not any(ev[0] == "attr" and ev[1] == "type" for ev in e["events"]):
+                        e["events"].append(["attr"] + rng.choice(SPECIAL_ATTRS))
+                # a class NAME outside the plain names can only be written with a backslash: not in this profile
+                e["events"] = [ev for ev in e["events"] if ev[0] != "cls" or all(ch in GS.IDENT_PLAIN for ch in ev[1])]
+            mp = {"m": m, "p": path}
+            if GS.expressible(mp):
+                lines.append(GS.print_mapping(mp, None))
+        t = CS.plain_paths_only("\n".join(lines))
+        if t and (t.upper() == CS.ascii_upper(t) or all(ord(c) < 128 or not c.isalpha() for c in t)):
+            return t
+    return ""
+
+
+def special_forest(rng, f):
+    """rename some elements of a forest to SPECIAL_NAMES (in place)"""
+    for n in _all(f):
+        if n["t"] == "el" and rng.random() < 0.5:
+            n["names"] = [rng.choice(SPECIAL_NAMES)] + list(n["names"][1:])
+    return f
+
+
 def image_cases(seed, n):
     import props.c17 as P17
     irng = random.Random(seed * 7919 + 202)
@@ -91,6 +141,18 @@ def run(out, tier, seed, model_ok):
         if rng.random() < 0.15:
             c["options"]["imageConv"] = {"kind": "fixed", "attrs": [["src", rng.choice(["x.png", "\"><img>", "a&b", "data:image/png;base64,\"<&"])], ["title", rng.choice(["<t>", "&amp;", "ok"])]], "open": False}
             IC.vary_converter(rng, c["options"]["imageConv"])
+    # style maps whose paths name elements that an HTML parser treats specially (script, style, textarea, title, pre, ...), ahead of the
+    # case's own style map, for matchers that describe many elements: the document's hostile text then stands inside such elements
+    import cases as CS
+    from gen_docx import DocGen
+    srng = random.Random(seed * 7919 + 204)
+    pools = CS.pools_of(DocGen(0, PROFILE))
+    for c in cs:
+        if srng.random() < 0.3:
+            t = special_lines(srng, pools)
+            if t:
+                c["options"]["styleMap"] = t + ("\n" + c["options"]["styleMap"] if c["options"].get("styleMap") else "")
+                c["features"] = sorted(set(c["features"]) | {"special-element-name"})
     run_ = A.ApiRun(out, "C02", model_ok, project, observers=[well_formed, IC.prescribed], name="wellformed")
     run_.run(cs, nontrivial=lambda c, r: any(ch in r.get("value", "") for ch in ("&lt;", "&quot;", "&amp;")))
     # alt text and converter-given attribute values, image by image: documents with several pictures (also the same picture again
@@ -128,6 +190,8 @@ def run(out, tier, seed, model_ok):
     forests = []
     for _ in range(common.deepen(1500 if tier == "quick" else 20000)):
         f = H.random_forest(rng, max_nodes=12)
+        if srng.random() < 0.3:
+            special_forest(srng, f)
         plain = all(all(ch.isalnum() for ch in nm) and nm for n in _all(f) if n["t"] == "el" for nm in n["names"])
         if plain:
             forests.append(f)
@@ -158,6 +222,9 @@ def run(out, tier, seed, model_ok):
     out.sample({"forest": forests[0] if forests else None})
     out.rule += ("; link targets / field URLs also in the spellings a URL library would re-serialise (scheme case, drive letters, UNC and file://// forms, `?` before `#`, "
                  "existing / empty fragments, surrounding blanks), each external href checked character by character against the package's strings")
+    out.rule += ("; style maps (and writer forests) whose paths name the elements an HTML parser treats specially (script, style, textarea, title, xmp, plaintext, "
+                 "pre, noscript, template, svg, math, ... in several letter cases, alone / nested / as alternatives / with a type attribute) for matchers that describe many "
+                 "elements, so that hostile document text stands inside them")
 
 
 def _all(f):
